@@ -151,6 +151,67 @@ def case_invalid_text(acc, route, scheme, text):
     return got
 
 
+LENIENT_ALPHA = ["0", "8", "\u0668", "\uff18", " ", "\xa0", "+", "_", "1"]
+
+
+def case_lenient_text(acc, scheme, ui, host, text):
+    """Port spellings that int() happens to accept (other Unicode decimal digits, padding, sign, '_'): whether the constructor takes
+    them is not fixed by the statement, but IF it does, explicit_port is that integer and str()/host_port_subcomponent report it the
+    way they report any port (ASCII digits; omitted when it is the scheme default)."""
+    acc.evals += 1
+    try:
+        want = int(text)
+    except ValueError:
+        acc.evals -= 1
+        return None
+    if text.isascii() and text.isdigit():
+        acc.evals -= 1
+        return None    # an ordinary port: the matrix task
+    pre = (scheme + ":" if scheme else "") + "//"
+    try:
+        u = impl.URL(pre + ui + host + ":" + text + "/p?q#f")
+        ep, s, hps = u.explicit_port, str(u), u.host_port_subcomponent
+    except ValueError:
+        acc.count("lenient_spelling_rejected")
+        return ("ValueError",)
+    except Exception as e:  # noqa: BLE001
+        acc.viol("lenient_text", (scheme, ui, host, text), observed=repr(e), expected="a URL or ValueError",
+                 msg="URL(%r) raised %r" % (pre + ui + host + ":" + text, e))
+        return None
+    acc.nontrivial += 1
+    probs = []
+    shown = want != DEFAULT.get(scheme.lower())
+    if ep != want:
+        probs.append("explicit_port %r, the written port means %r" % (ep, want))
+    hostport = s.split("//", 1)[1].split("/", 1)[0].rsplit("@", 1)[-1]
+    tail = hostport[len(host):] if hostport.lower().startswith(host.lower()) else hostport
+    if tail != (":%d" % want if shown else ""):
+        probs.append("str() shows the port as %r, expected %r" % (tail, ":%d" % want if shown else ""))
+    if not hps.endswith(":%d" % want if shown else host.lower().rstrip(".")):
+        probs.append("host_port_subcomponent %r" % hps)
+    if probs:
+        acc.viol("lenient_text", (scheme, ui, host, text), observed={"str": s, "explicit_port": ep, "hps": hps}, expected="statement C17",
+                 msg="URL(%r): %s" % (pre + ui + host + ":" + text + "/p?q#f", "; ".join(probs)))
+    return (s, ep)
+
+
+def task_lenient():
+    acc = Acc(ID, impl.backend)
+    states = set()
+    for n in (1, 2, 3):
+        for t in itertools.product(LENIENT_ALPHA, repeat=n):
+            text = "".join(t)
+            for scheme in ("http", "x"):
+                for ui in ("", "u@"):
+                    for host in ("h.com", "H.com", "1.2.3.4", "[::1]"):
+                        st = case_lenient_text(acc, scheme, ui, host, text)
+                        if st is not None:
+                            states.add(st)
+    acc.state_count = len(states)
+    acc.sample({"lenient_port_alphabet": LENIENT_ALPHA, "max_length": 3})
+    return acc.result()
+
+
 class IntSub(int):
     pass
 
@@ -198,7 +259,7 @@ def case_argtype(acc, route, scheme, argname):
     return got
 
 
-CASES = {"port": case_port, "invalid_text": case_invalid_text, "argtype": case_argtype}
+CASES = {"port": case_port, "invalid_text": case_invalid_text, "argtype": case_argtype, "lenient_text": case_lenient_text}
 
 
 def task_matrix(route, scheme):
@@ -238,6 +299,7 @@ def plan(ctx):
             for scheme in SCHEMES:
                 tasks.append(("checks.C17", "task_matrix", (route, scheme), b, "m"))
         tasks.append(("checks.C17", "task_rejections", (), b, "r"))
+        tasks.append(("checks.C17", "task_lenient", (), b, "l"))
     ctx.notes["bounds"] = {"schemes": SCHEMES, "ports": PORTS, "hosts": [h[0] for h in HOSTS], "userinfo": [u[0] for u in USERINFO],
-                           "routes": ROUTES, "invalid_texts": INVALID_TEXT, "lenient_texts_not_judged": LENIENT_TEXT}
+                           "routes": ROUTES, "invalid_texts": INVALID_TEXT, "lenient_port_spellings": {"alphabet": LENIENT_ALPHA, "max_length": 3, "rule": "acceptance not judged; if accepted, value and rendering are"}}
     return tasks
